@@ -72,6 +72,18 @@ fn from_yuv_inner<T: Pixel>(call: &str, y: &Yuv<T>) -> Result<(Px, usize, usize)
     }
 }
 
+fn from_yuv_owned<T: Pixel>(call: &str, y: &Yuv<T>) -> Result<(Px, usize, usize), String> {
+    crate::util::guard_s(|| {
+        let e = |x: yuvxyb::ConversionError| crate::frames::err_name_conv(x).to_string();
+        let y = y.clone();
+        match call {
+            "YuvToRgb" => Rgb::try_from(y).map(|r| (r.data().to_vec(), r.width(), r.height())).map_err(e),
+            "YuvToLin" => LinearRgb::try_from(y).map(|r| (r.data().to_vec(), r.width(), r.height())).map_err(e),
+            _ => Xyb::try_from(y).map(|r| (r.data().to_vec(), r.width(), r.height())).map_err(e),
+        }
+    })
+}
+
 fn yuv_source_event<T: Pixel>(sh: &mut Shards, call: &str, c: &Cfg, st: u8, w: usize, h: usize, rng: &mut Rng) {
     let maxc = (1u64 << c.n) - 1;
     let (cw, ch) = (w >> c.ssx, h >> c.ssy);
@@ -116,7 +128,8 @@ fn yuv_source_event<T: Pixel>(sh: &mut Shards, call: &str, c: &Cfg, st: u8, w: u
         Ok((out, wo, ho)) => {
             let _ = write!(s, ",\"res\":\"ok\",\"wo\":{wo},\"ho\":{ho}");
             bits(&mut s, "out", &out);
-            if let Ok((again, _, _)) = from_yuv(call, &ya) {
+            // the repeat goes through the impl that takes the source BY VALUE (TryFrom<Yuv<T>>): both impls are "the conversion"
+            if let Ok((again, _, _)) = from_yuv_owned(call, &ya) {
                 bits(&mut s, "again", &again);
             }
             if let Ok((repad, _, _)) = from_yuv(call, &yb) {
@@ -196,7 +209,13 @@ fn to_yuv_event<T: Pixel>(sh: &mut Shards, call: &str, c: &Cfg, st: u8, w: usize
         Ok(y) => {
             let _ = write!(s, ",\"res\":\"ok\",\"wo\":{},\"ho\":{},\"pdims\":[[{},{}],[{},{}],[{},{}]]", y.width(), y.height(), y.data()[0].cfg.width, y.data()[0].cfg.height, y.data()[1].cfg.width, y.data()[1].cfg.height, y.data()[2].cfg.width, y.data()[2].cfg.height);
             codes(&mut s, "out", &read_yuv(&y));
-            if let Ok(y2) = to_yuv_conv::<T>(call, c, px, w, h) {
+            // the repeat of RgbToYuv goes through the impl that takes the Rgb BY VALUE
+            let again = if call == "RgbToYuv" {
+                crate::util::guard_s(|| Yuv::<T>::try_from((Rgb::new(px.to_vec(), w, h, tc(c.tc), cp(c.cp)).map_err(|_| "ctor")?, c.yuv_config())).map_err(|x| crate::frames::err_name_conv(x).to_string()))
+            } else {
+                to_yuv_conv::<T>(call, c, px, w, h)
+            };
+            if let Ok(y2) = again {
                 codes(&mut s, "again", &read_yuv(&y2));
             }
             // each pixel as a 1x1 image, encoded 4:4:4
